@@ -98,6 +98,46 @@ for (r, c) in ((2, 5), (5, 2), (1, 3), (3, 1)):
 print('RESULT', bad[:5])
 assert not bad, 'indexed access touched another element: %r' % (bad[:3],)
 ''', 'assert')
+    if fn == 'Matrix_NewFromPyBuffer' and ob.kind == 'nooverflow':
+        # an explicit (int) cast of a Py_ssize_t extent: not reported by the
+        # sanitizer; the oracle is the size of the result
+        shp = '(1, n)' if 'shape[1]' in ob.text else '(n,)'
+        return ("n = 2**32 + 5\n"
+                "mv = memoryview(bytearray(4 * n)).cast('i', %s)\n"
+                "try:\n"
+                "    A = matrix(mv)\n"
+                "except Exception as e:\n"
+                "    print('RESULT', type(e).__name__, e)\n"
+                "else:\n"
+                "    print('RESULT size', A.size)\n"
+                "    assert len(A) == n, 'matrix(buffer of %%d elements) has "
+                "%%d elements' %% (n, len(A))\n" % shp, 'assert')
+    if fn == 'Matrix_NewFromPyBuffer':
+        return ('''
+from array import array
+bad = []
+for code, tc in (('d', 'd'), ('l', 'i'), ('i', 'i')):
+    base = array(code, range(24))
+    mv = memoryview(base)
+    views = [mv, mv[::2], mv[1::3], mv[5::-1], mv[6:0:-2]]
+    m2 = mv.cast('B').cast(code, (4, 6))
+    views += [m2]
+    for v in views:
+        A = matrix(v)
+        want = v.tolist()
+        if v.ndim == 1:
+            ok = A.size == (len(want), 1) and list(A) == [
+                (float(x) if tc == 'd' else x) for x in want]
+        else:
+            ok = A.size == v.shape and all(
+                A[i, j] == want[i][j] for i in range(v.shape[0])
+                for j in range(v.shape[1]))
+        if not ok or A.typecode != tc:
+            bad.append((code, v.shape, v.strides, A.size, list(A)[:6]))
+print('RESULT', bad[:3])
+assert not bad, 'matrix(buffer) does not reproduce the exporter: %r' % (
+    bad[:2],)
+''', 'assert')
     if fn == 'Matrix_NewFromSequence' and ob.kind == 'nooverflow':
         return ("x = [0] * (2**31 + 3)\n"
                 "try:\n"
@@ -143,7 +183,7 @@ def replay_obligation(ob, meta, base, envs):
     if mode == 'valgrind':
         info['valgrind'] = res.get('valgrind')
         return bool(res.get('valgrind')) or bool(res.get('signal')), info
-    if ob.kind == 'nooverflow':
+    if ob.kind == 'nooverflow' and mode != 'assert':
         hits = [l for l in res.get('ubsan', []) if 'dense.c:' in l]
         lo = meta.get('line_start') or meta.get('line') or 0
         hi = max(meta.get('line_end') or 0, meta.get('line') or 0)
